@@ -269,6 +269,23 @@ package arvados
 //@   ensures released
 //@   ensures replaced ==> istype(fn.segments[idx], storedSegment) && unbox(fn.segments[idx], storedSegment).locator == loc && unbox(fn.segments[idx], storedSegment).size == len(buf) && unbox(fn.segments[idx], storedSegment).offset == 0 && unbox(fn.segments[idx], storedSegment).length == len(buf)
 
+// commitBlock itself: a write slot of the filesystem's throttle is taken only
+// for the write goroutine (which gives it back, see below) - every return
+// without that goroutine leaves no slot taken (a leaked slot blocks every
+// later save once the four are gone); the offset recorded for a segment is
+// where its data starts in the assembled block; the goroutine is marked as the
+// flusher of every segment before it starts.
+//@ func dirnode.commitBlock property C08,C09 safety -bounds,-nil,-makeslice
+//@   ghost held int = 0
+//@   ghost started bool = false
+//@   calls throttle.Acquire#*: set held = held + 1
+//@   calls throttle.Release#*: set held = held - 1
+//@   calls dirnode.commitBlock$1#1: requires held == 1
+//@   calls dirnode.commitBlock$1#1: set started = true
+//@   ensures !started ==> held == 0
+//@   calls append#1: requires $0 == offsets && $1[0] == len(block)
+//@   at assign .flushing#1: assert $v == done
+
 // Goroutine body of commitBlock: segments are replaced only after PutB
 // succeeded, with the locator PutB returned, the block size, the segment's
 // offset in the block and its length; the throttle slot is released on every
@@ -336,7 +353,7 @@ package arvados
 // Seek: the new offset follows whence; a negative result is an error and
 // leaves the handle where it was; a changed offset invalidates the cached
 // segment position (repacked = -1 forces a fresh seek).
-//@ func filehandle.Seek property C08
+//@ func filehandle.Seek property C03,C08
 //@   ghost size0 int64 = 0
 //@   calls inode.Size#1: set size0 = $r
 //@   ensures err == nil && whence == 0 ==> pos == off && off >= 0
@@ -470,6 +487,10 @@ package arvados
 //@ func fileSystem.Rename$1 property C08
 //@   # the moved inode is re-parented to the TARGET directory under the new name
 //@   calls inode.SetParent#1: requires $recv == accepted && $0 == newdirf.inode && $1 == newname
+//@   # ... on every successful move (same base name in another directory included)
+//@   ghost reparented bool = false
+//@   calls inode.SetParent#1: set reparented = true
+//@   ensures result1 == nil ==> reparented
 //@   ensures oldinode == nil ==> result1 == os.ErrNotExist
 //@   ensures oldinode != nil && old(has(locked, iface(oldinode)) && locked[iface(oldinode)]) ==> result0 == oldinode && result1 == ErrInvalidArgument
 //@   ensures result1 != nil ==> result0 == oldinode
@@ -493,7 +514,12 @@ package arvados
 //@   modifies all
 //@ func manifestEscape trusted pure
 //@   modifies nothing
-//@ func dirnode.marshalManifest$2 property C09 safety -bounds,-nil,-nopanic
+//@ func dirnode.marshalManifest$2 property C09,C10 safety -bounds,-nil,-nopanic
+//@   # every file of the directory gets a file token: once a file has been
+//@   # processed, the last file part carries its name (a file made only of
+//@   # zero-length segments included)
+//@   loop 2: invariant $i > 0 ==> len(fileparts) > 0 && fileparts[len(fileparts)-1].name == name
+//@   at loop 1 back: assert len(fileparts) > 0 && fileparts[len(fileparts)-1].name == name
 //@   ghost tot int64 = 0
 //@   ghost nb int = 0
 //@   ghost ferr error = nil
